@@ -9,6 +9,7 @@ import (
 	"log"
 	"os"
 	"runtime/debug"
+	"strconv"
 	"strings"
 	"time"
 
@@ -26,6 +27,8 @@ func main() {
 	seed := flag.Int64("seed", 0, "VERIF_SEED (only rotates non-deciding passes)")
 	deadline := flag.Duration("deadline", 0, "internal deadline (0: none)")
 	args := flag.String("args", "", "k=v,k=v extra arguments")
+	journal := flag.String("journal", "", "journal file (execution in progress)")
+	skip := flag.String("skip", "", "comma separated input numbers to skip")
 	flag.Parse()
 	debug.SetMaxStack(256 << 20)
 	log.SetOutput(io.Discard) // go-openapi/spec logs resolution errors on the standard logger
@@ -61,6 +64,13 @@ func main() {
 	}
 	c := props.NewCtx(*prop, *tier, *shard, *n, *replays)
 	c.Seed = *seed
+	c.JournalPath = *journal
+	c.Skip = map[int64]bool{}
+	for _, t := range strings.Split(*skip, ",") {
+		if n, err := strconv.ParseInt(t, 10, 64); err == nil {
+			c.Skip[n] = true
+		}
+	}
 	if *deadline > 0 {
 		c.Deadline = time.Now().Add(*deadline)
 	}
